@@ -90,6 +90,9 @@ def run(ctx):
     out_path = ctx.path("steps_other.ndjson")
     rc, _, err = vlib.run_harness(drv, ["steps"], stdin="".join(cmds).encode(), out_path=out_path,
                                   env={"VERIF_SEED": ctx.seed}, timeout=1800)
+    if rc in (124, 125, 126, 127, 137):
+        ctx.note_inconclusive("non-belt bundles: driver could not be run / timed out (rc=%s): %s" % (rc, err[-200:]))
+        return
     rows = [json.loads(l) for l in open(out_path) if l.strip().endswith("}")]
     if rc != 0:
         nxt = cmds[len(rows)].strip() if len(rows) < len(cmds) else "?"
